@@ -881,9 +881,12 @@ async fn panicking_sibling() -> (Option<bool>, Option<f64>, Option<f64>, Option<
 /// starts it (`passage::start` in a child process of this monitor) and is sent SIGINT while one
 /// connection is stalled mid-login and one status client is between Status Response and Ping.
 async fn sigint_family(cli: &Cli, report: &mut Report) {
-    let rounds = cli.scaled(if cli.tier == Tier::Thorough { 4 } else { 1 });
+    // SIGINT (ctrl-c, `kill -INT`) and SIGTERM (`docker stop`, Kubernetes, systemd, plain `kill`) both
+    // ask the application to shut down
+    let rounds = cli.scaled(if cli.tier == Tier::Thorough { 4 } else { 2 });
     let mut all = vec![];
     for round in 0..rounds {
+        let (signame, sig) = if round % 2 == 0 { ("sigint", "-INT") } else { ("sigterm", "-TERM") };
         let port = crate::tcp::free_port();
         let addr: SocketAddr = format!("127.0.0.1:{port}").parse().expect("addr");
         let timeout_s = 2u64;
@@ -915,7 +918,7 @@ async fn sigint_family(cli: &Cli, report: &mut Report) {
         let pid = child.id();
         let killer = tokio::spawn(async move {
             tokio::time::sleep(Duration::from_millis(350)).await;
-            let _ = std::process::Command::new("kill").args(["-INT", &pid.to_string()]).status();
+            let _ = std::process::Command::new("kill").args([sig, &pid.to_string()]).status();
             Instant::now()
         });
         let status_log = match &status {
@@ -955,28 +958,28 @@ async fn sigint_family(cli: &Cli, report: &mut Report) {
         if let Some(s) = &status {
             s.kill();
         }
-        let detail = json!({"round": round, "timeout_s": timeout_s, "status_client_got_pong_after_signal": pong, "late_connection_served": late_served, "child_exit": exited.map(|(c, d)| json!({"code": c, "ms_after_signal": d.as_millis() as u64})), "stalled_connection_closed_ms_after_signal": staller_open_ms});
-        report.eval(Some(&format!("sigint/{round}")));
+        let detail = json!({"round": round, "signal": signame, "timeout_s": timeout_s, "status_client_got_pong_after_signal": pong, "late_connection_served": late_served, "child_exit": exited.map(|(c, d)| json!({"code": c, "ms_after_signal": d.as_millis() as u64})), "stalled_connection_closed_ms_after_signal": staller_open_ms});
+        report.eval(Some(&format!("{signame}/{round}")));
         report.count("sigint: application processes signalled while connections were in flight", 1);
-        report.sample(json!({"case": "SIGINT to passage::start in a child process", "observed": detail}));
+        report.sample(json!({"case": format!("{signame} to passage::start in a child process"), "observed": detail}));
         all.push(detail.clone());
         report.set("sigint_rounds", json!(all));
         if late_served {
-            report.violation("a-served-after-shutdown/sigint", "a connection opened 150 ms after SIGINT was served", detail.clone());
+            report.violation(&format!("a-served-after-shutdown/{signame}"), &format!("a connection opened 150 ms after {signame} was served"), detail.clone());
         }
         if pong == Some(false) {
-            report.violation("b-inflight-status-lost-pong/sigint", "a status exchange that was in progress when SIGINT arrived was not completed", detail.clone());
+            report.violation(&format!("b-inflight-status-lost-pong/{signame}"), &format!("a status exchange that was in progress when {signame} arrived was not completed"), detail.clone());
         }
         match exited {
-            None => report.violation("d-listen-not-returned-within-timeout+5s/sigint", "the application did not exit within timeout + 5 s of SIGINT", detail.clone()),
+            None => report.violation(&format!("d-listen-not-returned-within-timeout+5s/{signame}"), &format!("the application did not exit within timeout + 5 s of {signame}"), detail.clone()),
             Some((code, after)) => {
                 if code != Some(0) {
-                    report.violation("sigint/exit-code", &format!("the application exited with {code:?} after SIGINT"), detail.clone());
+                    report.violation(&format!("{signame}/exit-code"), &format!("the application exited with {code:?} after {signame}"), detail.clone());
                 }
                 // the stalled login was accepted ~350 ms before the signal and may run until its
                 // deadline (2 s): an exit much earlier means in-flight connections were cut off
                 if after < Duration::from_millis(900) && staller.is_some() {
-                    report.violation("c-listen-returned-before-inflight-finished/sigint", &format!("the application exited {} ms after SIGINT although a connection accepted 350 ms earlier had 2 s to live", after.as_millis()), detail.clone());
+                    report.violation(&format!("c-listen-returned-before-inflight-finished/{signame}"), &format!("the application exited {} ms after {signame} although a connection accepted 350 ms earlier had 2 s to live", after.as_millis()), detail.clone());
                 }
             }
         }
